@@ -214,6 +214,12 @@ func union(ctx context.Context, concurrencyLimit int, handlers ...CheckHandlerFu
 		return nil, finalErr
 	}
 
+	// The loop can end early when the workers gave up on a cancelled context and the channel was
+	// closed before every handler reported: the partial result must not be taken for an answer.
+	if ctx.Err() != nil {
+		return nil, ctx.Err()
+	}
+
 	return finalResult, nil
 }
 
@@ -284,6 +290,11 @@ func intersection(ctx context.Context, concurrencyLimit int, handlers ...CheckHa
 	// then any error we encountered along the way is the final result.
 	if finalErr != nil {
 		return nil, finalErr
+	}
+
+	// See union: on a cancelled context the channel may close before every handler reported.
+	if ctx.Err() != nil {
+		return nil, ctx.Err()
 	}
 
 	// If the loop completes without any "false" outcomes or errors, the result is "true".
